@@ -379,3 +379,14 @@ Proof.
 Qed.
 
 End Inner.
+
+(* ------------------------------------------------------------------ wrappers used by Props/C19.v *)
+Lemma inner_result_size_correct_top : forall L R, sorted L -> sorted R ->
+  ordered_inner_map_result_size L R = Ok (len (inner_join L R)).
+Proof. intros L R HL HR. exact (inner_result_size_correct_gen L R 0 HL HR). Qed.
+
+Lemma inner_map_kernels_correct_top : forall k L R l2i r2i, sorted L -> sorted R ->
+  (k <> IGen -> ssorted L) -> (k = IBU -> ssorted R) ->
+  len l2i = len (inner_join L R) -> len r2i = len (inner_join L R) ->
+  ordered_inner_map_k k L R l2i r2i = Ok (map fst (inner_join L R), map snd (inner_join L R)).
+Proof. intros k L R l2i r2i HL HR. exact (inner_map_correct_gen L R 0 HL HR k l2i r2i). Qed.
